@@ -28,11 +28,11 @@ Import ListNotations.
       the function it memoises: after ANY history, every entry still holds the pure value and
       define_symbols hands out (an object whose content is) align_syms r a. *)
 Theorem C06_memo_transparent :
-  forall (val ntab : Type) default_flags base_topos perms_of (register : nat -> flags -> ntab)
+  forall (val ntab : Type) default_flags base_topos perms_of decays_of (register : nat -> flags -> ntab)
          (top : nat -> config -> ntab -> val * list (nat * val) * list (nat * val) * list (nat * val))
          topo_vars moves align_syms xrepl new_masses loop_pars (sk : skeleton) (ops : list op),
   no_write_through_memo sk = true ->
-  let w := fst (run default_flags base_topos perms_of register top topo_vars moves align_syms
+  let w := fst (run default_flags base_topos perms_of decays_of register top topo_vars moves align_syms
                     xrepl new_masses loop_pars sk (init val ntab) ops) in
   (forall r a addr, mlookup (w_memo w) r a = Some addr -> hget (w_heap w) addr = align_syms r a)
   /\ (forall r a memo' heap' obj alias,
@@ -45,7 +45,7 @@ Proof. exact memo_transparent_thm. Qed.
       for every choice of the pure pieces such that xreplace looks its mapping up by key and
       equal symbols have equal definitions across topologies (C07). *)
 Theorem C06_formulate_pure :
-  forall (val ntab : Type) default_flags base_topos perms_of (register : nat -> flags -> ntab)
+  forall (val ntab : Type) default_flags base_topos perms_of decays_of (register : nat -> flags -> ntab)
          (top : nat -> config -> ntab -> val * list (nat * val) * list (nat * val) * list (nat * val))
          topo_vars moves align_syms (xrepl : (nat -> option val) -> val -> val) new_masses loop_pars,
   (forall f g e, (forall k, f k = g k) -> xrepl f e = xrepl g e) ->
@@ -57,13 +57,13 @@ Theorem C06_formulate_pure :
   Forall (fun x : nat * config * model val =>
             snd x = formulate_spec register top topo_vars moves align_syms xrepl new_masses
                                    loop_pars (fst (fst x)) (snd (fst x)))
-         (snd (run default_flags base_topos perms_of register top topo_vars moves align_syms
+         (snd (run default_flags base_topos perms_of decays_of register top topo_vars moves align_syms
                    xrepl new_masses loop_pars sk (init val ntab) ops)).
 Proof. exact formulate_pure_thm. Qed.
 
 (* 2'. ... in particular for the skeleton observed on the current /repo in this run. *)
 Theorem C06_formulate_pure_current :
-  forall (val ntab : Type) default_flags base_topos perms_of (register : nat -> flags -> ntab)
+  forall (val ntab : Type) default_flags base_topos perms_of decays_of (register : nat -> flags -> ntab)
          (top : nat -> config -> ntab -> val * list (nat * val) * list (nat * val) * list (nat * val))
          topo_vars moves align_syms (xrepl : (nat -> option val) -> val -> val) new_masses loop_pars,
   (forall f g e, (forall k, f k = g k) -> xrepl f e = xrepl g e) ->
@@ -74,7 +74,7 @@ Theorem C06_formulate_pure_current :
   Forall (fun x : nat * config * model val =>
             snd x = formulate_spec register top topo_vars moves align_syms xrepl new_masses
                                    loop_pars (fst (fst x)) (snd (fst x)))
-         (snd (run default_flags base_topos perms_of register top topo_vars moves align_syms
+         (snd (run default_flags base_topos perms_of decays_of register top topo_vars moves align_syms
                    xrepl new_masses loop_pars observed (init val ntab) ops)).
 Proof. intros. apply formulate_pure_thm; [assumption|assumption|exact observed_well_behaved]. Qed.
 
@@ -91,12 +91,12 @@ Qed.
 (* the Forall of 2 is not vacuous: a Formulate on an existing builder always logs that
    builder's current reaction and configuration together with a model *)
 Theorem C06_formulate_logged :
-  forall (val ntab : Type) default_flags base_topos perms_of (register : nat -> flags -> ntab)
+  forall (val ntab : Type) default_flags base_topos perms_of decays_of (register : nat -> flags -> ntab)
          (top : nat -> config -> ntab -> val * list (nat * val) * list (nat * val) * list (nat * val))
          topo_vars moves align_syms xrepl new_masses loop_pars (sk : skeleton)
          (w : world val ntab) b order B,
   nth_error (w_builders w) b = Some B ->
-  exists m, snd (step default_flags base_topos perms_of register top topo_vars moves align_syms
+  exists m, snd (step default_flags base_topos perms_of decays_of register top topo_vars moves align_syms
                       xrepl new_masses loop_pars sk w (Formulate b order))
             = Some (b_reaction B, b_config B, m).
 Proof. exact formulate_logs. Qed.
@@ -148,7 +148,7 @@ Theorem C06_formulate_pure_refuted_pinned :
         dlast Nat.eqb (Toy.t_topo_vars r t2) k = Some v2 -> v1 = v2)
   /\ sk_resets Toy.sk_pinned = true /\ sk_reregisters Toy.sk_pinned = true
   /\ exists ops r c m,
-       nth_error (snd (Toy.t_run bt2 po3 Toy.sk_pinned (init Toy.tval (list nat)) ops)) 1
+       nth_error (snd (Toy.t_run bt2 po3 dk2 Toy.sk_pinned (init Toy.tval (list nat)) ops)) 1
          = Some (r, c, m)
        /\ m <> Toy.t_spec r c
        /\ dget Nat.eqb (m_kin m) 51 = Some [101; 102; 100]
@@ -156,17 +156,17 @@ Theorem C06_formulate_pure_refuted_pinned :
 Proof. exact refuted_pinned. Qed.
 
 Theorem C06_refuted_pinned_two_builders : exists r c m,
-  nth_error (snd (Toy.t_run bt2 po3 Toy.sk_pinned (init Toy.tval (list nat)) witness_ops2)) 1
+  nth_error (snd (Toy.t_run bt2 po3 dk2 Toy.sk_pinned (init Toy.tval (list nat)) witness_ops2)) 1
     = Some (r, c, m) /\ m <> Toy.t_spec r c.
 Proof. exact refuted_two_builders. Qed.
 
 (* the other two skeleton fields matter as well *)
 Theorem C06_refuted_without_reset : exists ops r c m,
-  nth_error (snd (Toy.t_run bt2 po3 sk_noreset (init Toy.tval (list nat)) ops)) 1 = Some (r, c, m)
+  nth_error (snd (Toy.t_run bt2 po3 dk2 sk_noreset (init Toy.tval (list nat)) ops)) 1 = Some (r, c, m)
   /\ m <> Toy.t_spec r c.
 Proof. exact refuted_noreset. Qed.
 Theorem C06_refuted_without_reregistration : exists ops r c m,
-  nth_error (snd (Toy.t_run bt2 po3 sk_noreregister (init Toy.tval (list nat)) ops)) 0 = Some (r, c, m)
+  nth_error (snd (Toy.t_run bt2 po3 dk2 sk_noreregister (init Toy.tval (list nat)) ops)) 0 = Some (r, c, m)
   /\ m <> Toy.t_spec r c.
 Proof. exact refuted_noreregister. Qed.
 
@@ -175,24 +175,31 @@ Proof. exact refuted_noreregister. Qed.
    skeleton gives the specification, and the histories do formulate twice *)
 Example C06_ex_toy_pure : forall sk ops, well_behaved sk = true ->
   Forall (fun x => snd x = Toy.t_spec (fst (fst x)) (snd (fst x)))
-         (snd (Toy.t_run bt2 po3 sk (init Toy.tval (list nat)) ops)).
+         (snd (Toy.t_run bt2 po3 dk2 sk (init Toy.tval (list nat)) ops)).
 Proof. exact toy_pure_all. Qed.
 Example C06_ex_witness_fixed :
-  Toy.t_show bt2 po3 Toy.sk_fixed witness_ops
+  Toy.t_show bt2 po3 dk2 Toy.sk_fixed witness_ops
   = [([0; 11; 0; 0; 0; 0; 0; 1; 0; 0; 2; 0; 1], true);
      ([0; 11; 0; 1; 2; 1; 2; 0; 0; 1; 0; 0; 2; 0; 1], true)]
-  /\ map snd (Toy.t_show bt2 po3 Toy.sk_pinned witness_ops) = [true; false]
-  /\ map snd (Toy.t_show bt2 po3 Toy.sk_fixed witness_ops2) = [true; true]
-  /\ map snd (Toy.t_show bt2 po3 Toy.sk_pinned witness_ops2) = [true; false].
+  /\ map snd (Toy.t_show bt2 po3 dk2 Toy.sk_pinned witness_ops) = [true; false]
+  /\ map snd (Toy.t_show bt2 po3 dk2 Toy.sk_fixed witness_ops2) = [true; true]
+  /\ map snd (Toy.t_show bt2 po3 dk2 Toy.sk_pinned witness_ops2) = [true; false].
 Proof. repeat split; vm_compute; reflexivity. Qed.
 (* set-iteration order matters before the sort and not after it *)
 Example C06_ex_order :
   create Toy.t_topo_vars 0 [0; 1] <> create Toy.t_topo_vars 0 [1; 0]
-  /\ Toy.t_show bt2 po3 Toy.sk_fixed [NewBuilder 0; Formulate 0 [0; 1]; Formulate 0 [1; 0]]
+  /\ Toy.t_show bt2 po3 dk2 Toy.sk_fixed [NewBuilder 0; Formulate 0 [0; 1]; Formulate 0 [1; 0]]
      = [([0; 0; 0; 0; 0; 0; 0; 1; 0; 0; 2; 0; 1], true); ([0; 0; 0; 0; 0; 0; 0; 1; 0; 0; 2; 0; 1], true)].
 Proof.
   split; [intro H; vm_compute in H; discriminate|]. vm_compute; reflexivity.
 Qed.
+(* assigning dynamics by resonance name is the same configuration as assigning it node by node
+   (either by-node overload), whatever the order *)
+Example C06_ex_assign_overloads_final :
+  nth_error (map fst (Toy.t_show bt2 po3 dk2 Toy.sk_fixed
+               [NewBuilder 0; AssignDecay 0 3 7; Formulate 0 []; AssignDecay 0 3 5; AssignDecay 0 2 5; Formulate 0 []])) 1
+  = nth_error (map fst (Toy.t_show bt2 po3 dk2 Toy.sk_fixed [NewBuilder 0; Assign 0 1 5; Formulate 0 []])) 0.
+Proof. vm_compute. reflexivity. Qed.
 Example C06_ex_canon :
   canon Nat.eqb Nat.ltb [(3, 30); (1, 10); (2, 20)] = [(1, 10); (2, 20); (3, 30)]
   /\ canon Nat.eqb Nat.ltb [(2, 20); (3, 30); (1, 10)] = [(1, 10); (2, 20); (3, 30)].
@@ -213,4 +220,5 @@ Print Assumptions C06_refuted_without_reregistration.
 Print Assumptions C06_ex_toy_pure.
 Print Assumptions C06_ex_witness_fixed.
 Print Assumptions C06_ex_order.
+Print Assumptions C06_ex_assign_overloads_final.
 Print Assumptions C06_ex_canon.
